@@ -2806,6 +2806,101 @@ theorem union_without_unsafe_refused (c : Ctx) (m : TraitMeta) (hk : c.d.kind = 
     rw [hta, ok_bind_eq]
     simp [hu]
 
+/-! ## the type helpers (`common/type.rs`, `into/common.rs::to_hash_type`) — C08, C09, C10
+
+`Ty.ungroup`, `Ty.isRef`, `Ty.dereference`, `Ty.hashTy`, `Ty.shape` (Attr/Syntax.lean) model `ungroup`, `dereference_changed(..).1`,
+`dereference`, `to_hash_type` and the view `auto_adjust_expr` takes of a field type. The driver computes every field's `hashTy`,
+`isRef`, `derefTy`, `shape` and every Into target's normalised string with them from the type trees syn produced; the
+correspondences compare the results with the real impl headers (`Into<..>` trait arguments and predicates, `Deref::Target`). -/
+
+theorem ungroup_idem : ∀ t : Ty, t.ungroup.ungroup = t.ungroup
+  | .mk .group _ (some c) => by simp only [Ty.ungroup]; exact ungroup_idem c
+  | .mk .path _ _ | .mk .ref _ _ | .mk .array _ _ | .mk .other _ _ | .mk .group _ none => by simp [Ty.ungroup]
+
+/-- **A macro fragment is what it contains.** Wrapping a type in an invisible group — the form in which a `$t:ty`
+    fragment of a `macro_rules!` macro reaches the derive — changes none of the views the handlers take of it: whether it
+    is a reference, what `auto_adjust_expr` sees (the repaired defect 3dc0dd9: `Default = 1` on a `$t = u16` field), and —
+    for a reference — its fully dereferenced type. -/
+theorem group_is_transparent (txt : String) (c : Ty) :
+    (Ty.mk .group txt (some c)).isRef = c.isRef ∧ (Ty.mk .group txt (some c)).shape = c.shape ∧
+    (c.isRef = true → (Ty.mk .group txt (some c)).dereference = c.dereference) := by
+  refine ⟨by simp [Ty.isRef, Ty.ungroup], by simp [Ty.shape, Ty.ungroup], ?_⟩
+  intro hr
+  have hu : (Ty.mk .group txt (some c)).ungroup = c.ungroup := by simp [Ty.ungroup]
+  unfold Ty.isRef at hr
+  rw [Ty.dereference, Ty.dereference]
+  split
+  · rename_i t1 c1 h1
+    rw [hu] at h1
+    split
+    · rename_i t2 c2 h2
+      rw [h1] at h2
+      cases h2; rfl
+    · rename_i hne
+      exact absurd h1 (hne _ _)
+  · rename_i hne
+    rw [hu] at hne
+    split at hr
+    · rename_i t2 c2 h2
+      exact absurd h2 (hne _ _)
+    · cases hr
+
+/-- A type that is not a reference is its own dereference. -/
+theorem dereference_of_not_ref (t : Ty) (h : t.isRef = false) : t.dereference = t := by
+  unfold Ty.isRef at h
+  rw [Ty.dereference]
+  split
+  · rename_i txt c hc
+    rw [hc] at h
+    cases h
+  · rfl
+
+/-- `dereference` never stops at a reference: what it returns is not a reference (looked at through groups). -/
+theorem dereference_not_ref : ∀ (n : Nat) (t : Ty), t.size ≤ n → t.dereference.isRef = false := by
+  intro n
+  induction n with
+  | zero =>
+    intro t ht
+    cases t with
+    | mk k txt c => cases c <;> simp [Ty.size] at ht
+  | succ n ih =>
+    intro t ht
+    rw [Ty.dereference]
+    split
+    · rename_i txt c hc
+      apply ih
+      have := Ty.ungroup_size_le t
+      rw [hc] at this
+      simp only [Ty.size] at this
+      omega
+    · rename_i hne
+      unfold Ty.isRef
+      split
+      · rename_i txt c hc
+        exact absurd hc (hne _ _)
+      · rfl
+
+/-- **The Into key forgets lifetimes.** Two reference types with the same fully dereferenced type have the same
+    normalised string, whatever lifetimes (or how many reference layers) they were written with: the written `&'a str` and
+    `&'static str` are one target — the root of the recorded known finding (C01, `Into(&'a T)`). -/
+theorem hashTy_of_refs (t t' : Ty) (h : t.isRef = true) (h' : t'.isRef = true)
+    (hd : t.dereference.text = t'.dereference.text) : t.hashTy = t'.hashTy := by
+  simp [Ty.hashTy, h, h', hd]
+
+/-- A type that is not a reference is its own key. -/
+theorem hashTy_of_not_ref (t : Ty) (h : t.isRef = false) : t.hashTy = t.text := by
+  simp [Ty.hashTy, h]
+
+/-- The views stored in a field are those of its type tree. -/
+theorem withTy_views (f : Field) (t : Ty) :
+    (f.withTy t).hashTy = t.hashTy ∧ (f.withTy t).isRef = t.isRef ∧ (f.withTy t).derefTy = t.dereference.text ∧ (f.withTy t).shape = t.shape :=
+  ⟨rfl, rfl, rfl, rfl⟩
+
+/-! non-vacuity: `&'a $t` with `$t = &'b u16` — two reference layers, the inner one inside a macro fragment -/
+def exTy : Ty := .mk .ref "& 'a & 'b u16" (some (.mk .group "& 'b u16" (some (.mk .ref "& 'b u16" (some (.mk .path "u16" none))))))
+example : exTy.isRef = true := by decide
+example : (Ty.mk .group "u16" (some (.mk .path "u16" none))).shape = .path "u16" := by decide
+
 /-! ## Non-vacuity: a concrete definition, as syn's records, through the whole chain
 
 `#[educe(PartialEq)] enum E { A, B(u8, #[educe(PartialEq(ignore))] u8), C { x: u8, #[educe(PartialEq(method(m)))] y: u8 } }` -/
